@@ -1,21 +1,30 @@
 """
 Skeleton extractor: /repo source (ast) -> lean/Eliot/Generated/*.lean  (DESIGN.md 2.6 (b)).
+
+Every module `harness/extractors/<name>.py` defines `extract(repo: Path) -> (filename, lean_source, report)`:
+plain Lean *data* (tables describing the current source), normalised so that comments, formatting
+and names of locals do not matter.  An unrecognised shape is not guessed at: the extractor emits
+a table value that makes the Lean obligation fail (e.g. `.unknown`) and says so in `report`.
 Files are rewritten only when their content changes, so an unchanged tree costs no rebuild.
 """
+import importlib
+import pkgutil
 from pathlib import Path
 
-EXTRACTORS = []  # filled below: functions (repo: Path) -> (filename, lean_source, report_dict)
+from . import extractors
 
 
 def regenerate(repo, outdir):
     outdir = Path(outdir)
     outdir.mkdir(parents=True, exist_ok=True)
     report = {}
-    for fn in EXTRACTORS:
-        name, src, rep = fn(Path(repo))
+    for info in sorted(pkgutil.iter_modules(extractors.__path__), key=lambda i: i.name):
+        mod = importlib.import_module("harness.extractors." + info.name)
+        name, src, rep = mod.extract(Path(repo))
         p = outdir / name
+        rep = dict(rep)
         if not p.exists() or p.read_text() != src:
             p.write_text(src)
-            rep = dict(rep, rewritten=True)
+            rep["rewritten"] = True
         report[name] = rep
     return report
